@@ -6,243 +6,19 @@ From Coq Require Import List Arith Bool Lia Reals Lra.
 From Compute Require Import Base.Ops Base.ListMat Model.Reduce Model.MatMul Model.Subst Model.Cholesky Model.LU
   Model.Solve Model.SolveInst Spec.Factor Spec.Solve Proofs.C05 Proofs.LinAlgBase Proofs.C11_Subst Proofs.C11_Chol
   Proofs.C01_Layout Proofs.C01_Chol Proofs.C01_Pred Proofs.C01 Proofs.C01_Backward.
+From Compute Require Export Proofs.C11_SPD.
 Import ListNotations.
-
-(** ** any carrier: a positive pivot makes the checked row equal to the unchecked row *)
-Section Complete.
-  Context {T : Type} (O : Ops T).
-  Local Notation z := (zero O).
-
-  Lemma try_chol_row_complete A L n i :
-    ltb O z (chol_pivot O A i (fold_left (fun r j => r ++ [chol_entry O false A L n i r j]) (seq 0 i) [])) = true ->
-    try_chol_row O A L n i = Some (chol_row O false A L n i).
-  Proof.
-    intros Hd. unfold try_chol_row, chol_row. rewrite seq_S, !fold_left_app. cbn [Nat.add fold_left].
-    rewrite try_step_prefix by (intros j Hj; apply in_seq in Hj; lia).
-    unfold try_chol_step. cbn [bind]. rewrite Nat.eqb_refl, Hd. cbn [bind].
-    rewrite chol_entry_diag. reflexivity.
-  Qed.
-End Complete.
 
 Local Open Scope R_scope.
 
-(** ** sums *)
-Lemma quad_gram (a : nat -> R) (B : nat -> nat -> R) i k :
-  rsum (fun p => rsum (fun q => a p * rsum (fun m => B p m * B q m) k * a q) i) i =
-  rsum (fun m => rsum (fun p => B p m * a p) i * rsum (fun p => B p m * a p) i) k.
-Proof.
-  rewrite (rsum_ext _ (fun p => rsum (fun m => rsum (fun q => (a p * B p m) * (B q m * a q)) i) k)).
-  - rewrite rsum_swap. apply rsum_ext. intros m Hm.
-    rewrite (rsum_ext _ (fun p => (a p * B p m) * rsum (fun q => B q m * a q) i))
-      by (intros p Hp; rewrite rsum_scal_l; reflexivity).
-    rewrite rsum_scal_r. f_equal. apply rsum_ext. intros; ring.
-  - intros p Hp. rewrite rsum_swap. apply rsum_ext. intros q Hq.
-    rewrite <- rsum_scal_l, <- rsum_scal_r. apply rsum_ext. intros; ring.
-Qed.
-
-Lemma lin_gram (r a : nat -> R) (B : nat -> nat -> R) i k :
-  rsum (fun q => rsum (fun m => r m * B q m) k * a q) i =
-  rsum (fun m => r m * rsum (fun q => B q m * a q) i) k.
-Proof.
-  rewrite (rsum_ext _ (fun q => rsum (fun m => r m * (B q m * a q)) k)).
-  - rewrite rsum_swap. apply rsum_ext. intros m Hm. rewrite rsum_scal_l. reflexivity.
-  - intros q Hq. rewrite <- rsum_scal_r. apply rsum_ext. intros; ring.
-Qed.
-
-(** an upper triangular system with nonzero diagonal has a solution *)
-Lemma upper_solve i : forall (U : nat -> nat -> R) (r : nat -> R),
-  (forall m, (m < i)%nat -> U m m <> 0) ->
-  exists w, forall m, (m < i)%nat ->
-    rsum (fun p => (if (m <=? p)%nat then U m p else 0) * w p) i = r m.
-Proof.
-  induction i as [|i IH]; intros U r Hd.
-  - exists (fun _ => 0). intros; lia.
-  - destruct (IH (fun m p => U (S m) (S p)) (fun m => r (S m))) as [w' Hw'].
-    { intros m Hm. apply Hd. lia. }
-    set (w0 := (r 0%nat - rsum (fun p => U 0%nat (S p) * w' p) i) / U 0%nat 0%nat).
-    exists (fun p => match p with 0%nat => w0 | S p' => w' p' end).
-    intros m Hm. rewrite rsum_shift. destruct m as [|m'].
-    + cbn [Nat.leb]. unfold w0. pose proof (Hd 0%nat ltac:(lia)). field. auto.
-    + cbn [Nat.leb]. rewrite Rmult_0_l, Rplus_0_l. apply Hw'. lia.
-Qed.
-
-(** ** positive definiteness, on entry functions *)
-Definition qform (A : nat -> nat -> R) (n : nat) (x : nat -> R) : R :=
-  rsum (fun p => rsum (fun q => x p * A p q * x q) n) n.
-Definition pos_def_fun (A : nat -> nat -> R) (n : nat) : Prop :=
-  forall x : nat -> R, (exists i, (i < n)%nat /\ x i <> 0) -> 0 < qform A n x.
-
-(** the pivot of row [i] of the sweep *)
-Definition piv (A L : list (list R)) (i : nat) : R :=
-  ent 0 A i i - rsum (fun m => ent 0 L i m * ent 0 L i m) i.
-
-Section Pivots.
-Context (A L : list (list R)) (n : nat).
-Local Notation E := (ent 0 L).
-Local Notation a := (ent 0 A).
-
-Lemma pivots_positive :
-  chol_rec A L n ->
-  (forall i j, (i < n)%nat -> (j < n)%nat -> ent 0 A i j = ent 0 A j i) ->
-  pos_def_fun (ent 0 A) n ->
-  forall i, (i < n)%nat -> 0 < piv A L i.
-Proof.
-  intros Hrec Hsym Hpd i. induction i as [i IH] using lt_wf_ind. intros Hi.
-  assert (Hdiag : forall j, (j < i)%nat -> 0 < E j j).
-  { intros j Hj. destruct (Hrec j ltac:(lia)) as (_ & Hd & _). rewrite Hd.
-    apply sqrt_lt_R0. apply (IH j Hj). lia. }
-  assert (Hzero : forall p m, (p < n)%nat -> (p < m)%nat -> E p m = 0).
-  { intros p m Hp Hpm. destruct (Hrec p Hp) as (Hz & _). apply Hz; auto. }
-  (* reconstruction of the rows above row i and of the off-diagonal part of row i *)
-  assert (Hlow : forall p q, (p < i)%nat -> (q <= p)%nat -> rsum (fun m => E p m * E q m) i = a p q).
-  { intros p q Hp Hq.
-    rewrite (rsum_trunc _ (S q) i) by (try lia; intros m Hm; rewrite (Hzero q m) by lia; ring).
-    destruct (Hrec p ltac:(lia)) as (_ & Hd & Ho). cbn [rsum].
-    destruct (Nat.eq_dec q p) as [->|Hne].
-    - rewrite Hd. rewrite sqrt_sqrt by (pose proof (IH p Hp ltac:(lia)) as Hp0; unfold piv in Hp0; lra).
-      lra.
-    - assert (Hqp : (q < p)%nat) by lia. specialize (Ho q Hqp). rewrite Ho.
-      pose proof (Hdiag q ltac:(lia)).
-      rewrite (rsum_ext (fun m => E p m * E q m) (fun m => E q m * E p m) q) by (intros; ring).
-      field. lra. }
-  assert (Hall : forall p q, (p < i)%nat -> (q < i)%nat -> rsum (fun m => E p m * E q m) i = a p q).
-  { intros p q Hp Hq. destruct (Nat.le_gt_cases q p).
-    - apply Hlow; auto.
-    - rewrite (Hsym p q) by lia. rewrite <- (Hlow q p) by (auto; lia).
-      apply rsum_ext. intros; ring. }
-  assert (Hrow : forall q, (q < i)%nat -> rsum (fun m => E i m * E q m) i = a i q).
-  { intros q Hq.
-    rewrite (rsum_trunc _ (S q) i) by (try lia; intros m Hm; rewrite (Hzero q m) by lia; ring).
-    destruct (Hrec i Hi) as (_ & _ & Ho). cbn [rsum]. specialize (Ho q Hq). rewrite Ho.
-    pose proof (Hdiag q Hq).
-    rewrite (rsum_ext (fun m => E i m * E q m) (fun m => E q m * E i m) q) by (intros; ring).
-    field. lra. }
-  (* w solves L'^T.w = (row i of L) *)
-  destruct (upper_solve i (fun m p => E p m) (fun m => E i m)) as [w Hw].
-  { intros m Hm. pose proof (Hdiag m Hm). lra. }
-  assert (Hc : forall m, (m < i)%nat -> rsum (fun p => E p m * w p) i = E i m).
-  { intros m Hm. rewrite <- (Hw m Hm). apply rsum_ext. intros p Hp.
-    destruct (Nat.leb_spec m p); [reflexivity|]. rewrite (Hzero p m) by lia. ring. }
-  (* the test vector *)
-  set (x := fun p => if (p <? i)%nat then - w p else if (p =? i)%nat then 1 else 0).
-  assert (Hx0 : forall p, (i < p)%nat -> x p = 0).
-  { intros p Hp. unfold x. destruct (Nat.ltb_spec p i); [lia|]. destruct (Nat.eqb_spec p i); [lia|reflexivity]. }
-  assert (Hxi : x i = 1).
-  { unfold x. rewrite Nat.ltb_irrefl, Nat.eqb_refl. reflexivity. }
-  assert (Hxw : forall p, (p < i)%nat -> x p = - w p).
-  { intros p Hp. unfold x. destruct (Nat.ltb_spec p i); [reflexivity|lia]. }
-  assert (Hq : qform (ent 0 A) n x = piv A L i).
-  { unfold qform.
-    rewrite (rsum_trunc _ (S i) n) by (try lia; intros p Hp; apply rsum_zero; intros q Hq; rewrite (Hx0 p) by lia; ring).
-    rewrite (rsum_ext _ (fun p => rsum (fun q => x p * a p q * x q) (S i)))
-      by (intros p Hp; apply (rsum_trunc _ (S i) n); try lia; intros q Hq; rewrite (Hx0 q) by lia; ring).
-    cbn [rsum]. rewrite Hxi.
-    set (W := rsum (fun p => rsum (fun q => w p * a p q * w q) i) i).
-    set (V := rsum (fun q => a i q * w q) i).
-    set (Sq := rsum (fun m => E i m * E i m) i).
-    assert (H1 : rsum (fun p => rsum (fun q => x p * a p q * x q) i + x p * a p i * 1) i = W - V).
-    { unfold W, V. rewrite <- rsum_minus. apply rsum_ext. intros p Hp.
-      rewrite (Hxw p Hp). rewrite (Hsym p i) by lia.
-      rewrite (rsum_ext (fun q => - w p * a p q * x q) (fun q => w p * a p q * w q))
-        by (intros q Hq; rewrite (Hxw q Hq); ring).
-      ring. }
-    assert (H2 : rsum (fun q => 1 * a i q * x q) i = - V).
-    { unfold V. assert (Hneg : forall f k, rsum (fun q => - f q) k = - rsum f k)
-        by (intros f k; induction k; cbn [rsum]; lra).
-      rewrite <- Hneg. apply rsum_ext. intros q Hq. rewrite (Hxw q Hq). ring. }
-    assert (HV : V = Sq).
-    { unfold V. rewrite (rsum_ext _ (fun q => rsum (fun m => E i m * E q m) i * w q))
-        by (intros q Hq; rewrite (Hrow q Hq); reflexivity).
-      rewrite (lin_gram (fun m => E i m) w (fun q m => E q m) i i).
-      unfold Sq. apply rsum_ext. intros m Hm. rewrite (Hc m Hm). reflexivity. }
-    assert (HW : W = Sq).
-    { unfold W. rewrite (rsum_ext _ (fun p => rsum (fun q => w p * rsum (fun m => E p m * E q m) i * w q) i)).
-      - rewrite (quad_gram w (fun p m => E p m) i i). unfold Sq. apply rsum_ext. intros m Hm.
-        rewrite (Hc m Hm). reflexivity.
-      - intros p Hp. apply rsum_ext. intros q Hq. rewrite (Hall p q Hp Hq). reflexivity. }
-    rewrite H1, H2. unfold piv. fold Sq. lra. }
-  rewrite <- Hq. apply Hpd. exists i. split; [exact Hi|]. rewrite Hxi. lra.
-Qed.
-End Pivots.
-
-(** ** the checked sweep succeeds on a symmetric positive definite matrix *)
-Lemma spd_try_chol_rows M n :
-  (forall i j, (i < n)%nat -> (j < n)%nat -> ent 0 M i j = ent 0 M j i) ->
-  pos_def_fun (ent 0 M) n ->
-  try_chol_rows RO M n = Some (chol_rows RO false M n).
-Proof.
-  intros Hsym Hpd.
-  set (g := fun (i : nat) (Lp : list (list R)) => chol_row RO false M Lp n i).
-  change (chol_rows RO false M n) with (build g n).
-  destruct (chol_rows_spec false M n) as [Hw Hrec].
-  change (chol_rows RO false M n) with (build g n) in Hw, Hrec.
-  pose proof (pivots_positive M (build g n) n Hrec Hsym Hpd) as Hpiv.
-  assert (Hk : forall k, (k <= n)%nat ->
-            fold_left (try_chol_rows_step RO M n) (seq 0 k) (Some []) = Some (build g k)).
-  { induction k as [|k IH]; intros Hkn; [reflexivity|].
-    rewrite seq_S, fold_left_app, IH by lia. cbn [Nat.add fold_left].
-    unfold try_chol_rows_step. cbn [bind].
-    rewrite try_chol_row_complete.
-    - cbn [bind]. rewrite build_S. reflexivity.
-    - (* the pivot the checked sweep tests is [piv] of the finished factor *)
-      set (ge := fun (j : nat) (r : list R) => chol_entry RO false M (build g k) n k r j).
-      change (fold_left (fun r j => r ++ [chol_entry RO false M (build g k) n k r j]) (seq 0 k) [])
-        with (build ge k).
-      cbn [ltb zero RO]. apply Rltb_true.
-      assert (Hrowk : nth k (build g n) [] = pad RO n (build ge (S k))).
-      { rewrite (build_nth [] g n k) by lia. reflexivity. }
-      assert (Hent : forall m, (m < k)%nat -> ent 0 (build g n) k m = nth m (build ge k) 0).
-      { intros m Hm. unfold ent. rewrite Hrowk, nth_pad. rewrite build_S.
-        apply app_nth1. rewrite build_length. exact Hm. }
-      unfold chol_pivot. cbn [sub RO].
-      rewrite (build_firstn ge k k (le_n k)).
-      rewrite dot_raw_RO by reflexivity. rewrite build_length.
-      rewrite (rsum_ext _ (fun m => ent 0 (build g n) k m * ent 0 (build g n) k m))
-        by (intros m Hm; rewrite (Hent m Hm); reflexivity).
-      apply (Hpiv k). lia. }
-  apply (Hk n). lia.
-Qed.
-
-(** flat level *)
-Definition positive_definite (a : list R) (n : nat) : Prop :=
-  forall x : nat -> R, (exists i, (i < n)%nat /\ x i <> 0) ->
-    0 < rsum (fun p => rsum (fun q => x p * getm a n p q * x q) n) n.
-
-Theorem spd_try_cholesky a n :
-  (n * n)%nat = length a -> symmetric a n -> positive_definite a n ->
-  exists l, try_cholesky RO a = Some (Some l).
-Proof.
-  intros Hn Hsym Hpd. unfold try_cholesky. rewrite <- Hn, is_square_sq. cbn [bind].
-  rewrite is_symmetric_rel_rows_exact.
-  2:{ intros i j Hi Hj. rewrite !ent_unflatten by auto. apply (Hsym i j); auto. }
-  cbn [guard bind]. rewrite spd_try_chol_rows.
-  - cbn [option_map]. eauto.
-  - intros i j Hi Hj. rewrite !ent_unflatten by auto. apply (Hsym i j); auto.
-  - intros x Hx. specialize (Hpd x Hx). unfold qform.
-    rewrite (rsum_ext _ (fun p => rsum (fun q => x p * getm a n p q * x q) n)); [exact Hpd|].
-    intros p Hp. apply rsum_ext. intros q Hq. rewrite ent_unflatten by auto. reflexivity.
-Qed.
-
-(** a positive definite matrix has a positive diagonal *)
-Lemma positive_definite_diag a n i : positive_definite a n -> (i < n)%nat -> 0 < getm a n i i.
-Proof.
-  intros Hpd Hi.
-  specialize (Hpd (fun p => if (p =? i)%nat then 1 else 0)).
-  assert (Hx : exists i0, (i0 < n)%nat /\ (if (i0 =? i)%nat then 1 else 0) <> 0)
-    by (exists i; rewrite Nat.eqb_refl; split; [auto|lra]).
-  specialize (Hpd Hx).
-  rewrite (rsum_single _ i n Hi) in Hpd.
-  - rewrite (rsum_single _ i n Hi) in Hpd.
-    + rewrite Nat.eqb_refl in Hpd. lra.
-    + intros k Hk Hki. destruct (Nat.eqb_spec k i); [lia|]. ring.
-  - intros k Hk Hki. apply rsum_zero. intros q Hq. destruct (Nat.eqb_spec k i); [lia|]. ring.
-Qed.
+(** (the completeness proof itself — [pivots_positive], [spd_try_cholesky], [positive_definite] — is in
+    Proofs/C11_SPD.v, shared with property C11) *)
 
 (** symmetric positive definite input: the routing predicate holds, the Cholesky route is taken (no
     fallback), and [solve] returns the solution it computes *)
 Theorem spd_takes_cholesky_route a b n :
   (n * n)%nat = length a -> (0 < n)%nat -> length b = n -> symmetric a n -> positive_definite a n ->
-  exists l x, is_pd_pred RO a = Some true /\ try_cholesky RO a = Some (Some l) /\
+  exists l x, is_positive_definite RO a = Some true /\ try_cholesky RO a = Some (Some l) /\
               slice_solve RO a b = cholesky_solve RO l b /\
               cholesky_solve RO l b = Some x /\ solves a n x b.
 Proof.
